@@ -7,6 +7,8 @@ from ..mon import obs as O
 from ..mon import hooks
 from ..mon.client import call
 
+from ..ctx import level_of
+
 ID = "C17"
 
 
@@ -601,7 +603,7 @@ def run(case, ctx):
                     if not qr.ok:
                         ctx.count("early_queries_refused")
     else:
-        rr = call(ctx, "Gfa(list)", gfapy.Gfa, doc, version="gfa2")
+        rr = call(ctx, "Gfa(list)", gfapy.Gfa, doc, version="gfa2", vlevel=level_of(ctx, doc))
         if not rr.ok:
             ctx.violation("valid-document-refused/%s" % rr.cls(), "%r: %s" % (doc, str(rr.exc)[:200]), prop="C01")
             return
